@@ -401,9 +401,11 @@ pub fn process<I: BufRead, O: Write>(
                             insert_it = false;
                         }
                         match s.next() {
-                            Some(string) => {
+                            Some(_) => {
+                                // The comment text must be searched for its end in the whole
+                                // remainder of the line (not in the part truncated at "//")
                                 in_multiline_comments = true;
-                                remaining = string;
+                                remaining = &remaining[s2.len() + 2..];
                             }
                             _ => break,
                         }
@@ -414,9 +416,9 @@ pub fn process<I: BufRead, O: Write>(
                         insert_it = false;
                     }
                     match s.next() {
-                        Some(string) => {
+                        Some(_) => {
                             in_multiline_comments = true;
-                            remaining = string;
+                            remaining = &remaining[s2.len() + 2..];
                         }
                         _ => break,
                     }
